@@ -466,7 +466,7 @@ def note_array_to_score(
     if "id" not in dtypes:
         note_ids = ["{}n{:4d}".format(name_id, i) for i in range(len(note_array))]
         note_array = rfn.append_fields(
-            note_array, "id", np.array(note_ids, dtype="<U256")
+            note_array, "id", np.array(note_ids, dtype="<U256"), usemask=False
         )
     elif assign_note_ids or np.all(note_array["id"] == note_array["id"][0]):
         note_ids = ["{}n{:4d}".format(name_id, i) for i in range(len(note_array))]
@@ -493,7 +493,7 @@ def note_array_to_score(
             if part_voice != np.inf:
                 estimated_voices[i] = part_voice
         note_array = rfn.append_fields(
-            note_array, "voice", np.array(estimated_voices, dtype=int)
+            note_array, "voice", np.array(estimated_voices, dtype=int), usemask=False
         )
 
     # estimate pitch spelling
